@@ -217,6 +217,11 @@ class DirectoryComputation(MessagePassingComputation):
                 # it is up to the requester to retry
                 self.logger.warning('Unknown computation on lookup "%s"',
                                     msg.computation)
+                # The subscriber may still hold an outdated host for this
+                # computation (known before a previous un-subscription):
+                # tell it that the computation is currently not registered.
+                self.notify_computation_unregistered(
+                    sender, msg.computation, None)
             except UnknownAgent:
                 self.logger.warning('Unknown agent %s on lookup for '
                                     'computation %s', agt, msg.computation)
